@@ -15,24 +15,25 @@ DECB_WORDS = ("FOR GO REM ELSE IF DATA PRINT ON INPUT END NEXT DIM READ RUN REST
               "TAB TO SUB THEN NOT STEP OFF AND OR SGN INT ABS USR RND SIN PEEK LEN STR$ VAL ASC CHR$ EOF JOYSTK LEFT$ RIGHT$ MID$ POINT INKEY$ MEM "
               "DEL EDIT TRON TROFF DEF LET LINE PCLS PSET PRESET SCREEN PCLEAR COLOR CIRCLE PAINT GET PUT DRAW PCOPY PMODE PLAY DLOAD RENUM FN USING ATN COS TAN EXP FIX LOG POS SQR HEX$ VARPTR INSTR "
               "TIMER PPOINT STRING$ WIDTH PALETTE HSCREEN LPOKE HCLS HCOLOR HPAINT HCIRCLE HLINE HGET HPUT HBUFF HPRINT ERR BRK LOCATE HSTAT HSET HRESET HDRAW CMP RGB ATTR LPEEK BUTTON HPOINT "
-              "ERNO ERLIN GOTO GOSUB").split()
+              "ERNO ERLIN GOTO GOSUB XOR").split()
 _WORDS_LONGEST_FIRST = sorted(set(DECB_WORDS), key=lambda w: (-len(w), w))
 
 
 def decb_split(line):
-    """Insert blanks around every reserved word outside string literals / comments / DATA (what the Color BASIC cruncher sees)."""
-    out = []
+    """Insert blanks around every reserved word outside string literals / comments / DATA (what the Color BASIC cruncher sees).
+    Content (string literals, DATA items, remarks) is copied verbatim."""
+    out = []  # (is_content, text)
     i, n = 0, len(line)
     while i < n:
         c = line[i]
         if c == '"':
             j = line.find('"', i + 1)
             j = n - 1 if j < 0 else j
-            out.append(line[i : j + 1])
+            out.append((True, line[i : j + 1]))
             i = j + 1
             continue
         if c == "'":
-            out.append(line[i:])
+            out.append((True, line[i:]))
             break
         if c.isalpha():
             for w in _WORDS_LONGEST_FIRST:
@@ -41,21 +42,33 @@ def decb_split(line):
             else:
                 w = None
             if w == "REM":
-                out.append(" " + line[i:])
+                out.append((False, " "))
+                out.append((True, line[i:]))
                 break
             if w == "DATA":
                 j = line.find(":", i)
                 j = n if j < 0 else j
-                out.append(" " + line[i:j])
+                out.append((False, " "))
+                out.append((True, line[i:j]))
                 i = j
                 continue
             if w:
-                out.append(" " + w + " ")
+                out.append((False, " " + w + " "))
                 i += len(w)
                 continue
-        out.append(c)
+        out.append((False, c))
         i += 1
-    return re.sub(r" +", " ", "".join(out))
+    res = []
+    code = []
+    for is_content, t in out:
+        if is_content:
+            res.append(re.sub(r" +", " ", "".join(code)))
+            code = []
+            res.append(t)
+        else:
+            code.append(t)
+    res.append(re.sub(r" +", " ", "".join(code)))
+    return "".join(res)
 
 
 def strip_comment(line):
